@@ -107,6 +107,15 @@ class _Marshaller:
                 "code type passed for version %s but we are running version %s"
                 % (version_tuple_to_str(), self.python_version)
             )
+        if self.python_version and self.python_version < (3, 0) and PYTHON3:
+            # Python 2 tells str from unicode and int from long; the unmarshaller
+            # keeps the second of each pair apart (UnicodeForPython3, LongTypeForPython3).
+            if type(x) is str:
+                self.dump_string(x.encode("utf-8"))
+                return
+            if type(x) is int:
+                self.dump_int(x)
+                return
         try:
             self.dispatch[type(x)](self, x)
         except KeyError:
@@ -260,7 +269,11 @@ class _Marshaller:
 
     def dump_unicode(self, x):
         self._write(TYPE_UNICODE)
-        if PYTHON3:
+        if hasattr(x, "value") and isinstance(x.value, bytes):
+            # A Python 2 unicode constant read by the unmarshaller (UnicodeForPython3)
+            # keeps its UTF-8 payload in .value.
+            s = x.value
+        elif PYTHON3:
             # The payload is UTF-8 and the length counts its bytes, not code points;
             # marshal itself uses surrogatepass.
             s = x.encode("utf-8", "surrogatepass")
